@@ -63,6 +63,10 @@ pub struct McCase {
     /// in the concurrent phase a metric is refused iff hash(text before ':') % conc_refuse_mod == 0 (0 = never)
     #[serde(default)]
     pub conc_refuse_mod: u8,
+    /// in the concurrent phase one more thread calls set_global_default again (a documented
+    /// no-op once a client is set) while the others use the macros
+    #[serde(default)]
+    pub conc_late_set: bool,
 }
 
 #[derive(Clone, Debug, Serialize, Deserialize, Default)]
@@ -433,7 +437,7 @@ pub fn child_run(case: &McCase) -> ChildReport {
         rep.emits += ae.len();
     }
     if !case.concurrent.is_empty() {
-        concurrent_phase(case, &twin_arc, &logs_a, &logs_t, &mut rep);
+        concurrent_phase(case, &twin_arc, &logs_a, &logs_b, &logs_t, &mut rep);
     }
     if !logs_b.lock().unwrap().mt_emits.is_empty() || !logs_b.lock().unwrap().mt_handler.is_empty() {
         viol("macro.second-set-client-used", "the client of the second (ignored) set_global_default received metrics in the concurrent phase".into(), &mut rep);
@@ -521,15 +525,33 @@ fn mt_prog(t: usize, prog: &[McInv], reentrant: bool, twin: &StatsdClient, la: &
     }
 }
 
-fn concurrent_phase(case: &McCase, twin: &Arc<StatsdClient>, logs_a: &Arc<Mutex<Logs>>, logs_t: &Arc<Mutex<Logs>>, rep: &mut ChildReport) {
+fn concurrent_phase(case: &McCase, twin: &Arc<StatsdClient>, logs_a: &Arc<Mutex<Logs>>, logs_b: &Arc<Mutex<Logs>>, logs_t: &Arc<Mutex<Logs>>, rep: &mut ChildReport) {
     let sched = case.conc_sched.clone().unwrap_or(SchedSpec { kind: SchedKind::Uniform, seed: 1, depth: 1, explicit: None });
     let kc = KConfig::new(sched.seed, sched.strategy(120));
     let sh = Arc::new(MtShared::default());
     let progs = case.concurrent.clone();
     let reentrant = case.reentrant_handler;
     let (la, lt, tw, sh2) = (logs_a.clone(), logs_t.clone(), twin.clone(), sh.clone());
+    let late: Option<McCase> = if case.conc_late_set {
+        let mut other = case.clone();
+        other.prefix = "late".into();
+        Some(other)
+    } else {
+        None
+    };
+    let lb = logs_b.clone();
     let r = Kernel::run(kc, move || {
         let mut hs = Vec::new();
+        if let Some(other) = late {
+            let lb = lb.clone();
+            hs.push(sthread::spawn_named("late-setter", move || {
+                kernel::yield_now();
+                // ignored for ever: a client is already set
+                cadence_macros::set_global_default(build_client(&other, &lb));
+                kernel::yield_now();
+                cadence_macros::set_global_default(build_client(&other, &lb));
+            }));
+        }
         for (t, p) in progs.iter().enumerate().skip(1) {
             let (la, lt, tw, sh, p) = (la.clone(), lt.clone(), tw.clone(), sh2.clone(), p.clone());
             hs.push(sthread::spawn_named(&format!("user{t}"), move || mt_prog(t, &p, reentrant, &tw, &la, &lt, &sh)));
@@ -559,6 +581,9 @@ fn concurrent_phase(case: &McCase, twin: &Arc<StatsdClient>, logs_a: &Arc<Mutex<
     rep.probes.extend(sh.probes.lock().unwrap().iter().cloned());
     rep.trace.extend(sh.trace.lock().unwrap().iter().cloned());
     rep.probes.push("concurrent_phase_ran".into());
+    if case.conc_late_set {
+        rep.probes.push("late_set_during_macros".into());
+    }
     // reach: two callers inside the global client's sink / handler at the same time
     let a = logs_a.lock().unwrap();
     let overlap = |x: (u64, u64), y: (u64, u64)| x.0 < y.1 && y.0 < x.1;
@@ -645,7 +670,7 @@ impl Engine for E7 {
     }
 
     fn required_probes(_focus: &str) -> &'static [&'static str] {
-        &["panicked_while_unset", "second_set", "sink_refused_via_macro", "invalid_value_via_macro", "nested_macro_in_argument", "reentrant_handler_ran", "concurrent_phase_ran", "two_macro_users_in_sink", "two_macro_users_in_handler", "concurrent_refusal"]
+        &["panicked_while_unset", "second_set", "sink_refused_via_macro", "invalid_value_via_macro", "nested_macro_in_argument", "reentrant_handler_ran", "concurrent_phase_ran", "two_macro_users_in_sink", "two_macro_users_in_handler", "concurrent_refusal", "late_set_during_macros"]
     }
 
     fn generate(rng: &mut Rng, _focus: &str, _tier: Tier) -> McCase {
@@ -704,6 +729,7 @@ impl Engine for E7 {
             conc_sched,
             conc_yields: conc.below(3) as u8,
             conc_refuse_mod: *conc.pick(&[0u8, 1, 2, 3]),
+            conc_late_set: conc.chance(1, 2),
         }
     }
 
@@ -765,6 +791,7 @@ impl Engine for E7 {
                 "two_macro_users_in_sink" => "two_macro_users_in_sink",
                 "two_macro_users_in_handler" => "two_macro_users_in_handler",
                 "concurrent_refusal" => "concurrent_refusal",
+                "late_set_during_macros" => "late_set_during_macros",
                 _ => "other",
             };
             out.probe(name);
@@ -821,6 +848,11 @@ impl Engine for E7 {
             if case.conc_yields > 0 {
                 let mut c = case.clone();
                 c.conc_yields -= 1;
+                v.push(c);
+            }
+            if case.conc_late_set {
+                let mut c = case.clone();
+                c.conc_late_set = false;
                 v.push(c);
             }
             if let Some(s) = &case.conc_sched {
